@@ -196,6 +196,7 @@ theorem upgrade_core (c : Chain) : Core (upgrade c).1 := by
 
 theorem step_core {cfg : Cfg} {env : Env} {c : Chain} (o : Op) (hc : Core c) : Core (step cfg env c o).1 := by
   cases o with
+  | restart => exact hc
   | upgrade => exact upgrade_core c
   | tx v ls => exact applyTx_core v ls hc
   | recv r => exact recv_core r hc
@@ -430,6 +431,7 @@ theorem upgrade_full (env : Env) (c : Chain) : Full env (upgrade c).1 ∧ (upgra
 theorem step_full {cfg : Cfg} {env : Env} {c : Chain} (o : Op) (ho : OpOk cfg c.self o) (hf : Full env c) :
     Full env (step cfg env c o).1 ∧ (step cfg env c o).1.self = c.self := by
   cases o with
+  | restart => exact ⟨hf, rfl⟩
   | upgrade => exact upgrade_full env c
   | tx v ls => exact applyTx_full v ls hf
   | recv r => exact recv_full r hf
@@ -802,6 +804,42 @@ theorem send_seq_is_both_counters {env : Env} {c c' : Chain} {p : Packet} (hc : 
     c'.commits (p.dst, p.seq) = some (env.sha256 p.bytes) := by
   obtain ⟨_, h2, h3, _, h5, h6, _⟩ := one_commitment_send h
   exact ⟨h2, by rw [h2]; exact (hc.agree p.dst).symm, h5, h6, h3⟩
+
+/-! ### restart from an exported genesis -/
+
+/-- **A restart from exported state is the identity**: nothing the property talks about changes — not the chain
+counters, not the contract counters, no commitment, no receipt, no client, no escrow, and (unlike an upgrade) the
+numbering of sends continues. The differential run holds the real export → `NewTeleport` → `InitChain` to this. -/
+theorem restart_identity (cfg : Cfg) (env : Env) (c : Chain) :
+    (step cfg env c .restart).1 = c ∧ (step cfg env c .restart).2 = .ok := ⟨rfl, rfl⟩
+
+/-- run over a concatenation (used to splice a restart into a history) -/
+theorem run_append (cfg : Cfg) (env : Env) (c : Chain) (pre post : List Op) :
+    run cfg env c (pre ++ post) = run cfg env (run cfg env c pre) post := by
+  induction pre generalizing c with
+  | nil => rfl
+  | cons o os ih => exact ih _
+
+/-- a restart spliced in anywhere changes no reachable state: the history with the restart ends in exactly the state of
+the history without it -/
+theorem restart_transparent (cfg : Cfg) (env : Env) (c : Chain) (pre post : List Op) :
+    run cfg env c (pre ++ .restart :: post) = run cfg env c (pre ++ post) := by
+  rw [run_append, run_append]; rfl
+
+/-- **Sequencing continues across restarts**: `seq_gap_free_from`, `counters_agree`, `commitments_exact` quantify over
+op lists containing `Op.restart` anywhere (constructor of `Op`; the inductions have its case); spelled out for one
+restart: after `pre`, a restart and `post`, the counter of `d` is (all successful sends to `d`, before AND after the
+restart — the ghost list is the one of the history without the restart) + 1, the i-th of them carried i, and the two
+counters agree. -/
+theorem sequencing_across_restart (cfg : Cfg) (env : Env) (c : Chain) (pre post : List Op) (hc : Core c) (d : Bytes) :
+    let c' := run cfg env c (pre ++ .restart :: post)
+    contractNext c' d = chainNext c' d ∧
+    chainNext c' d = (sentTo c'.sent d).length + 1 ∧
+    (∀ i (hi : i < (sentTo c'.sent d).length), ((sentTo c'.sent d)[i]).seq = i + 1) ∧
+    c' = run cfg env c (pre ++ post) := by
+  intro c'
+  exact ⟨counters_agree cfg env c _ hc d, (seq_gap_free_from cfg env c _ hc d).1, (seq_gap_free_from cfg env c _ hc d).2,
+    restart_transparent cfg env c pre post⟩
 
 /-! ### witnesses and non-vacuity -/
 
